@@ -72,6 +72,85 @@ LOCAL = ["QSW", "TNW"]
 MU = 3.986004418e14
 
 
+ORIENT_PY = os.path.join(core.REPO, "beyond", "frames", "orient.py")
+
+
+def orient_links():
+    """orientation links `A + B + C` of orient.py (module level) with the flag 'this link carries a rate'
+    (second element of the tuple returned by `A_to_B` / `B_to_A` is not None), from the AST"""
+    tree = ast.parse(open(ORIENT_PY).read())
+    rate = {}
+    for node in ast.walk(tree):
+        if isinstance(node, ast.ClassDef) and node.name == "Orientation":
+            for fn in node.body:
+                if isinstance(fn, ast.FunctionDef) and "_to_" in fn.name:
+                    a, b = fn.name.split("_to_")
+                    rets = [r for r in ast.walk(fn) if isinstance(r, ast.Return)]
+                    if len(rets) != 1 or not isinstance(rets[0].value, ast.Tuple) or len(rets[0].value.elts) != 2:
+                        raise RuntimeError(f"orient.py: {fn.name} does not end in `return m, rate`")
+                    second = rets[0].value.elts[1]
+                    rate[(a, b)] = not (isinstance(second, ast.Constant) and second.value is None)
+    links = []
+
+    def chain(e):
+        if isinstance(e, ast.BinOp) and isinstance(e.op, ast.Add):
+            return chain(e.left) + chain(e.right)
+        if isinstance(e, ast.Name):
+            return [e.id]
+        raise RuntimeError("orient.py: unexpected link expression")
+    for st in tree.body:
+        if isinstance(st, ast.Expr) and isinstance(st.value, ast.BinOp) and isinstance(st.value.op, ast.Add):
+            names = chain(st.value)
+            for a, b in zip(names, names[1:]):
+                if (a, b) in rate:
+                    links.append((a, b, rate[(a, b)]))
+                elif (b, a) in rate:
+                    links.append((a, b, rate[(b, a)]))
+                else:
+                    raise RuntimeError(f"orient.py: link {a}-{b} has no conversion method")
+    return links
+
+
+def registry():
+    """name -> canonical name for every Earth-centred plain Frame registered at import"""
+    from beyond.frames import frames, center
+    out = []
+    for k, v in frames.dynamic.items():
+        if type(v) is frames.Frame and v.center is center.Earth and isinstance(v.orientation, frames.orient.Orientation) \
+                and type(v.orientation) is frames.orient.Orientation:
+            out.append((k, v.name))
+    return out
+
+
+def extract(ctx):
+    reg = registry()
+    links = orient_links()
+    names = []
+    for a, b, _ in links:
+        for n in (a, b):
+            if n not in names:
+                names.append(n)
+    canon = sorted({c for _, c in reg})
+    if sorted(names) != canon:
+        raise RuntimeError(f"orientation graph {sorted(names)} and frame registry {canon} name different frames")
+    if canon != sorted(FRAMES):
+        raise RuntimeError(f"built-in frames changed: {canon}")
+    lines = ["/- GENERATED by harness/props/C14.py from beyond/frames/frames.py (live registry) and beyond/frames/orient.py (AST). -/",
+             "namespace BeyondVerif.Generated",
+             "/-- `get_frame`: registered name → name of the Frame object (Earth-centred built-in frames) -/",
+             "def frameAlias : List (String × String) := [" + ", ".join(f'("{k}", "{v}")' for k, v in reg) + "]",
+             "/-- orientation names in order of first appearance in the links of orient.py -/",
+             "def orientNames : List String := [" + ", ".join(f'"{n}"' for n in names) + "]",
+             "/-- links `a + b` of orient.py as indices into `orientNames`, with the flag: the conversion carries a rotation rate -/",
+             "def orientLinks : List (Nat × Nat × Bool) := [" + ", ".join(f"({names.index(a)}, {names.index(b)}, {'true' if r else 'false'})" for a, b, r in links) + "]",
+             "/-- indices of the frames the property calls non-rotating (harness list NONROT) -/",
+             "def claimedNonRotating : List Nat := [" + ", ".join(str(names.index(n)) for n in NONROT) + "]",
+             f"def itrfIndex : Nat := {names.index('ITRF')}",
+             "end BeyondVerif.Generated"]
+    ch = ["Generated/Frames.lean"] if core.write_if_changed(os.path.join(core.LEAN, "BeyondVerif", "Generated", "Frames.lean"), "\n".join(lines) + "\n") else []
+    return ch + instantiate.main()
+
+
 # ---------------------------------------------------------------- generators
 
 def gen_state(rng):
@@ -180,6 +259,159 @@ def seq_family(f0, seq):
     if last in LOCAL:
         return "local-after-home" if home else "local-after-reframe"
     return "frame-after-home" if home else "frame-after-reframe"
+
+
+# ---------------------------------------------------------------- correspondence
+
+def canon(name):
+    from beyond.frames.frames import get_frame
+    return get_frame(name).name
+
+
+def gen_ops(rng):
+    """history of 1-5 operations: cov hops (mostly), state hops, state copies"""
+    ops = []
+    for _ in range(rng.randint(1, 5)):
+        r = rng.random()
+        pool = FRAMES + ["WGS84"]
+        if r < 0.70:
+            ops.append(("h", rng.choice(pool + LOCAL * 4)))
+        elif r < 0.85:
+            ops.append(("s", rng.choice(pool)))
+        else:
+            ops.append(("c", rng.choice(pool + ["-"] * 5)))
+    if rng.random() < 0.03:
+        ops.insert(rng.randrange(len(ops) + 1), (rng.choice("hsc"), rng.choice(["FOO", "Hill2", "qsw", "eme2000"])))
+    return ops
+
+
+def real_history(f0, tag0, x, date, c0, ops):
+    """runs the history on the real classes; returns the list of observations (one per op) and an error kind or None"""
+    import numpy as np
+    from beyond.orbits.cov import Cov
+    from beyond.frames.frames import get_frame
+    from beyond.errors import UnknownFrameError
+    sv = make_sv(x, date, f0)
+    sv.cov = Cov(sv, c0.copy(), tag0 if tag0 in LOCAL else get_frame(tag0))
+    obs = []
+    for kind, name in ops:
+        try:
+            if kind == "h":
+                sv.cov.frame = name
+            elif kind == "s":
+                sv.frame = name
+            else:
+                sv = sv.copy(frame=None if name == "-" else name)
+        except UnknownFrameError:
+            return obs, "unknown-frame"
+        c = sv.cov
+        tag = c.frame if isinstance(c.frame, str) else c.frame.name
+        obs.append((sv.frame.name, tag, c._orb_frame.name, c.orb.frame.name, [float(v) for v in c.orb], [float(v) for v in np.array(c).flatten()], str(c.orb.form)))
+    return obs, None
+
+
+def conv_table(f0, ops, date):
+    """real conversion matrices between all frames the history can touch"""
+    from beyond.frames.frames import get_frame
+    from beyond.errors import UnknownFrameError
+    names = [f0]
+    for _, n in ops:
+        if n in LOCAL or n == "-":
+            continue
+        try:
+            c = canon(n)
+        except UnknownFrameError:
+            continue
+        if c not in names:
+            names.append(c)
+    d = mkdate(date)
+    toks = []
+    k = 0
+    for a in names:
+        for b in names:
+            if a != b:
+                m = get_frame(a).orientation.convert_to(d, get_frame(b).orientation)
+                toks += [a, b] + [f2b(v) for v in m.flatten()]
+                k += 1
+    return k, toks
+
+
+def correspondence(ctx):
+    import numpy as np
+    out = Outcome()
+    rng = ctx.rng
+    reqs, meta = [], []
+    for it in range(ctx.n(700, 20000)):
+        f0 = NONROT[it % len(NONROT)]
+        if rng.random() < 0.05:
+            f0 = rng.choice(["ITRF", "PEF", "TIRF"])     # outside the property's quantifier, inside the model's
+        x = gen_state(rng)
+        date = gen_date(rng)
+        c0, sp, sv_, rank = gen_cov(rng)
+        tag0 = f0 if rng.random() < 0.85 else rng.choice(LOCAL)
+        ops = gen_ops(rng)
+        obs, err = real_history(f0, tag0, x, date, c0, ops)
+        k, table = conv_table(f0, ops, date)
+        req = " ".join(["cov", f0, tag0] + [f2b(v) for v in x] + [f2b(v) for v in c0.flatten()] + [str(k)] + table + [t for op in ops for t in op])
+        reqs.append(req)
+        meta.append((obs, err, scales(c0, sp, sv_), {"start": f0, "tag0": tag0, "ops": ops, "x": x, "date": date, "cov": c0.tolist()}))
+        changes = sum(1 for i, o in enumerate(obs) if o[1] != (obs[i - 1][1] if i else tag0))
+        out.count(key=req, nontrivial=changes > 0, kind="history", length=len(ops), tagchanges=changes, start=f0, error=err or "none",
+                  starttag="local" if tag0 in LOCAL else "frame")
+    for _ in range(ctx.n(300, 5000)):
+        from beyond.frames.local import to_local
+        x = gen_state(rng)
+        k = rng.choice(LOCAL)
+        real = to_local(k, np.array(x))
+        reqs.append(" ".join(["tolocal", k[0]] + [f2b(v) for v in x]))
+        meta.append(([("", "", "", "", [], [float(v) for v in real.flatten()], "")], None, np.ones(6), {"tolocal": k, "x": x}))
+        out.count(key=reqs[-1], kind="tolocal-" + k)
+    replies = core.Driver().run(reqs)
+    for req, (obs, err, s, inp), rep in zip(reqs, meta, replies):
+        compare(out, obs, err, s, inp, rep)
+    return out
+
+
+def compare(out, obs, err, s, inp, rep):
+    import numpy as np
+    toks = rep.split()
+    if "tolocal" in inp:
+        model = [b2f(t) for t in toks] if len(toks) == 36 else None
+        real = obs[0][5]
+        if model is None or not all(core.close(a, b, rtol=1e-12, atol=1e-12) for a, b in zip(real, model)):
+            out.fail("tolocal", "to_local differs between beyond.frames.local and the Lean model", inp, observed=real, expected=model or rep[:80])
+        out.sample({"request": "tolocal " + inp["tolocal"], "impl": real[:3], "model": (model or [])[:3]}, limit=1)
+        return
+    merr = None
+    if toks and not toks[-1].isdigit():
+        merr = toks.pop()
+    if merr != err:
+        out.fail("history-error-kind", "error kind differs", inp, observed=err, expected=merr)
+        return
+    if len(toks) != 46 * len(obs):
+        out.fail("history-length", "model and implementation executed a different number of operations", inp, observed=len(obs), expected=len(toks) / 46)
+        return
+    for i, o in enumerate(obs):
+        seg = toks[46 * i: 46 * (i + 1)]
+        mtags = seg[:4]
+        if list(o[:4]) != mtags:
+            out.fail("history-bookkeeping", f"bookkeeping after op {i} differs (state frame, cov tag, _orb_frame, orb.frame)", inp, observed=list(o[:4]), expected=mtags)
+            return
+        if o[6] != "cartesian":
+            out.fail("history-orb-form", "private copy is not cartesian", inp, observed=o[6], expected="cartesian")
+            return
+        morb = [b2f(t) for t in seg[4:10]]
+        mmat = np.array([b2f(t) for t in seg[10:]]).reshape(6, 6)
+        rn = max(abs(v) for v in o[4][:3])
+        vn = max(abs(v) for v in o[4][3:]) + 7.3e-5 * rn
+        if not all(core.close(a, b, rtol=0, atol=1e-9 * (rn if j < 3 else vn)) for j, (a, b) in enumerate(zip(o[4], morb))):
+            out.fail("history-orb", f"private state copy after op {i} differs", inp, observed=o[4], expected=morb)
+            return
+        if not mclose(np.array(o[5]).reshape(6, 6), mmat, s):
+            out.fail("history-matrix", f"covariance matrix after op {i} differs", inp, observed=o[5], expected=mmat.flatten().tolist())
+            return
+    out.sample({"ops": inp["ops"], "start": inp["start"], "impl_tags": [list(o[:4]) for o in obs], "impl_cov00": [o[5][0] for o in obs],
+                "model_cov00": [b2f(toks[46 * i + 10]) for i in range(len(obs))]}, limit=3)
 
 
 # ---------------------------------------------------------------- oracle on the real API
